@@ -218,5 +218,7 @@ def _kmeans(X, nbclusters=2, Labels=None, maxiter=300, delta=1.e-4,
     else:
         centers_output = centers
         z_output = z
+        # inertia of the solution that is actually returned
+        bJ = np.sum((X - centers_output[z_output]) ** 2)
 
     return centers_output, z_output, bJ
